@@ -30,7 +30,9 @@ impl DJob {
         json!({"t":"disk","file":self.file,"edit":self.edit,"level":self.level,"e2e":self.e2e,"closure":self.closure,
             "no_lost_links": is_option_variation(&self.edit),
             // level 0 = the conversion API without the catalogue merge (ctehexml::parse / Data::new alone)
-            "no_catalog": self.level == 0})
+            "no_catalog": self.level == 0,
+            // conversions that include the export step also check that the export loads back equal
+            "roundtrip": self.level >= 2 || self.e2e})
     }
 }
 
